@@ -466,7 +466,7 @@ pub fn prop() -> Prop<Case> {
     Prop {
         id: "C13",
         level: "exploration",
-        rule: "case = (options, tree) single backup or a history as in C02; after every mutating archive operation (backup, interrupted backup, delete, gc) the archive directory is read by the harness's own decoder (serde_json + snap + blake2) and checked: header, hunk names i/%05d/%09d numbered consecutively from 0 and non-empty, valid apaths strictly increasing within and across hunks under the reference order, tail hunk count == number of hunk files, blocks at d/<3 hex>/<128 hex> named by BLAKE2b-512 of their decompressed content, addresses inside their block, addresses only on files with lengths summing to the model's file size, target iff symlink. Non-trivial = some band with >=2 hunks and some block shared by >=2 entries; distinct by case hash; evaluations = archive states checked; plus two fixed scale probes (10 012 one-entry hunks; multi-MiB blocks). A tenth of the cases are of a third kind: while the backup runs, a later file of the directory being read is cut to a generated fraction of its length, extended, or replaced by a directory (so that reading it fails); the archive must conform all the same, every other entry's addresses must give exactly that file's bytes, and no other path may be missing from the version; since round 6 a third probe: 100 200 files of 256 bytes with default options (more entries than one default hunk takes, a combined block stored while the first hunk fills)",
+        rule: "case = (options, tree) single backup or a history as in C02; after every mutating archive operation (backup, interrupted backup, delete, gc) the archive directory is read by the harness's own decoder (serde_json + snap + blake2) and checked: header, hunk names i/%05d/%09d numbered consecutively from 0 and non-empty, valid apaths strictly increasing within and across hunks under the reference order, tail hunk count == number of hunk files, blocks at d/<3 hex>/<128 hex> named by BLAKE2b-512 of their decompressed content, addresses inside their block, addresses only on files with lengths summing to the model's file size, target iff symlink. Non-trivial = some band with >=2 hunks and some block shared by >=2 entries; distinct by case hash; evaluations = archive states checked; plus two fixed scale probes (10 012 one-entry hunks; multi-MiB blocks). A tenth of the cases are of a third kind: while the backup runs, a later file of the directory being read is cut to a generated fraction of its length, extended, or replaced by a directory (so that reading it fails); the archive must conform all the same, every other entry's addresses must give exactly that file's bytes, and no other path may be missing from the version; since round 6 a third probe: 100 200 files of 256 bytes with default options (more entries than one default hunk takes, a combined block stored while the first hunk fills); since round 8 three single-backup cases of ten hold two files equal in every respect, written as hard links of one another, and a probe backs up a tree beside names that are not valid UTF-8 (twins differing in their invalid bytes)",
         assumptions: &[
             "zero-length files left by the torn-write variant of an interruption are counted and skipped (documented exception)",
             "the decoder reads the key 'len' in addresses (what conserve writes; doc/format.md calls it 'length')",
